@@ -158,9 +158,12 @@ func c14Templates() map[string][]gen.Node {
 		"interpolation":         e(&gen.EInterp{Parts: []gen.Expr{&gen.EStr{S: "a "}, bin("+", nm("n"), num(1)), &gen.EStr{S: " b "}, nm("s")}}),
 		"group":                 e(bin("*", &gen.EGroup{X: bin("+", num(1), num(2))}, num(3))),
 		"strings":               e(bin("~", str("it"), bin("~", str("say \"hi\""), str("plain")))),
-		"method-call":           e(&gen.EMethod{X: nm("obj"), Name: "Concat", Args: []gen.Expr{str("a"), str("b")}}),
-		"number-forms":          e(bin("+", &gen.ENum{Text: "1.5"}, &gen.EAttr{X: nm("arr"), Key: num(0)})),
-		"is-then-op":            e(bin("and", &gen.ETest{X: nm("n"), Test: "pos"}, nm("t"))),
+		// a '#' that opens no interpolation is a character like any other, whichever quotes surround it
+		"hash-sign-strings": {tx("["), pr(bin("~", str("/issues#"), bin("~", str("#"), bin("~", str("a#b"), str("##"))))), pr(nm("n")), tx("]["), pr(str("#")), tx("\" t=\""), pr(str("x#")), tx("\"]["),
+			pr(&gen.EInterp{Parts: []gen.Expr{&gen.EStr{S: "x#"}, nm("n"), &gen.EStr{S: "#"}}}), tx("]")},
+		"method-call":  e(&gen.EMethod{X: nm("obj"), Name: "Concat", Args: []gen.Expr{str("a"), str("b")}}),
+		"number-forms": e(bin("+", &gen.ENum{Text: "1.5"}, &gen.EAttr{X: nm("arr"), Key: num(0)})),
+		"is-then-op":   e(bin("and", &gen.ETest{X: nm("n"), Test: "pos"}, nm("t"))),
 	}
 	return m
 }
@@ -438,5 +441,5 @@ func (p *c14) Assumptions() []string {
 }
 
 func (p *c14) Floors(tier string) map[string]int64 {
-	return map[string]int64{"exec_steps": 100000, "distinct_nontrivial": 5000}
+	return map[string]int64{"exec_steps": 100000, "distinct_nontrivial": 5000, "class:long-template": 100}
 }
